@@ -108,17 +108,18 @@ Theorem C06_ext_fdt_cenc_time_parse_agrees :
 Proof. exact (conj parse_ext_fdt_agrees (conj parse_cenc_agrees parse_sct_agrees)). Qed.
 Print Assumptions C06_ext_fdt_cenc_time_parse_agrees.
 
-(* (6) FEC OTI (EXT_FTI), all six schemes: what add_fti writes is the scheme's RFC figure for
+(* (6) FEC OTI (EXT_FTI), five schemes (FEC ids 0, 2, 5, 6, 129; Raptor = recorded finding D32,
+   see below): what add_fti writes is the scheme's RFC figure for
    every Oti / transfer length whose values fit the figure's fields (L < 2^48, or 2^40 for RaptorQ;
    B + parity <= 255 / 65535; E, Z, N, Al within their widths) *)
-Theorem C06_fti_build_is_rfc : forall data o L v,
+Theorem C06_fti_build_is_rfc : forall data o L v, o_fec o <> Raptor ->
   fti_of_oti o L = Some v -> all_fit (fti_layout v) = true ->
   add_fti data o L = push_ext data (ext_bytes (x_fti v)) ((16 + bits_of (fti_layout v)) / 32).
 Proof. exact add_fti_is_rfc. Qed.
 Print Assumptions C06_fti_build_is_rfc.
 
 (* on EVERY well-formed EXT_FTI the parser of each scheme yields exactly the RFC decoder's values *)
-Theorem C06_fti_parse_agrees_with_rfc : forall f hel c, wf_ext (XVar 64 hel c) = true ->
+Theorem C06_fti_parse_agrees_with_rfc : forall f hel c, f <> Raptor -> wf_ext (XVar 64 hel c) = true ->
   parse_fti f (ext_bytes (XVar 64 hel c))
   = match dec_fti (fec_code f) (XVar 64 hel c) with Some v => model_of_fti v | None => Err end.
 Proof. exact parse_fti_agrees. Qed.
@@ -129,13 +130,39 @@ Theorem C06_fti_rfc_roundtrip : forall v, all_fit (fti_layout v) = true ->
 Proof. exact x_fti_props. Qed.
 Print Assumptions C06_fti_rfc_roundtrip.
 
-Theorem C06_D30_raptor_fti_refuted_unfixed :
+(* D32 (recorded): for FEC id 1 (Raptor) the code writes and reads the RFC 6330-style figure
+   F(40) Reserved(8) T(16) Z(16) N(8) Al(8) padding(16), not RFC 5053 3.2.2/3.2.3
+   F(48) Reserved(16) T(16) Z(16) N(8) Al(8).  What holds of the code as it is: *)
+Theorem C06_D32_raptor_fti_parse_reads_flute_figure : forall hel c, wf_ext (XVar 64 hel c) = true ->
+  parse_fti_raptor (ext_bytes (XVar 64 hel c))
+  = match dec_raptor_flute (XVar 64 hel c) with Some x => model_of_raptor_flute x | None => Err end.
+Proof. exact parse_fti_raptor_agrees_flute. Qed.
+Print Assumptions C06_D32_raptor_fti_parse_reads_flute_figure.
+
+Theorem C06_D32_raptor_fti_build_writes_flute_figure : forall data o L z n al,
+  o_ss o = Some (SSRaptor z n al) ->
+  all_fit (flute_raptor_layout L 0 (o_E o) z n al 0) = true ->
+  add_fti_raptor data o L
+  = push_ext data (ext_bytes (XVar 64 4 (pack (flute_raptor_layout L 0 (o_E o) z n al 0)))) 4.
+Proof. exact add_fti_raptor_is_flute_figure. Qed.
+Print Assumptions C06_D32_raptor_fti_build_writes_flute_figure.
+
+(* flute-to-flute the Raptor FTI round-trips for L < 2^40 *)
+Theorem C06_D32_raptor_fti_self_roundtrip : forall data o L z n al,
+  o_ss o = Some (SSRaptor z n al) ->
+  L < 2 ^ 40 -> o_E o < 2 ^ 16 -> z < 2 ^ 16 -> n < 2 ^ 8 -> al < 2 ^ 8 ->
+  exists ext, add_fti_raptor data o L = push_ext data ext 4
+              /\ parse_fti_raptor ext = model_of_raptor_flute (L, o_E o, z, n, al).
+Proof. exact raptor_fti_self_roundtrip. Qed.
+Print Assumptions C06_D32_raptor_fti_self_roundtrip.
+
+(* the RFC 5053 figure is read differently *)
+Theorem C06_D32_raptor_fti_witness :
   let v := FtiRaptor 1000 0 16 2 1 4 in
-  wf_ext (x_fti v) = true /\ dec_fti 1 (x_fti v) = Some v
-  /\ parse_fti_raptor (ext_bytes (x_fti v)) = model_of_fti v
-  /\ parse_fti_raptor_unfixed (ext_bytes (x_fti v)) <> model_of_fti v.
-Proof. exact raptor_fti_refuted_unfixed. Qed.
-Print Assumptions C06_D30_raptor_fti_refuted_unfixed.
+  wf_ext (x_fti v) = true /\ dec_fti 1 (x_fti v) = Some v /\ fti_acceptable v = true
+  /\ parse_fti_raptor (ext_bytes (x_fti v)) <> model_of_fti v.
+Proof. exact raptor_fti_d32_witness. Qed.
+Print Assumptions C06_D32_raptor_fti_witness.
 
 (* (7) FEC payload ids, all six schemes, over each scheme's SBN / ESI range *)
 Theorem C06_payload_id_build_is_rfc : forall o p fs,
@@ -165,6 +192,7 @@ Print Assumptions C06_payload_id_rfc_roundtrip.
    exactly the RFC encoder's bytes for the packet carrying the input's values, and that packet is
    well formed *)
 Theorem C06_new_alc_pkt_is_rfc : forall o cci tsi p prof now c s o' h v fs,
+  known_d32_build o p = false ->
   in_range o cci tsi p now v fs ->
   lct_flags cci tsi (k_toi p) = (c, s, o', h) ->
   new_alc_pkt o cci tsi p prof now = Ok (rfc_alc_encode (flute_pkt o cci tsi p prof now c s o' h v fs))
@@ -185,14 +213,15 @@ Proof. exact rfc_decode_encode. Qed.
 Print Assumptions C06_rfc_decode_encode.
 
 (* (9) the executable predicates evaluated by the check on the IMPLEMENTATION's outputs hold of the
-   model for EVERY input (no hypothesis: the guards are inside the predicates, see
-   [build_in_range], [wf_pkt], [parse_demand]) *)
-Theorem C06_spec_build_holds : forall o cci tsi p prof now,
+   model for EVERY input outside the recorded class Known_D32 (the packet carries an EXT_FTI of
+   FEC Encoding ID 1); the other guards are inside the predicates, see [build_in_range], [wf_pkt],
+   [parse_demand].  Shape: forall x, ~ Known_D32 x -> P x. *)
+Theorem C06_spec_build_holds : forall o cci tsi p prof now, known_d32_build o p = false ->
   P_C06_build o cci tsi p prof now (new_alc_pkt o cci tsi p prof now) = true.
 Proof. exact spec_build_holds. Qed.
 Print Assumptions C06_spec_build_holds.
 
-Theorem C06_spec_parse_holds : forall m p,
+Theorem C06_spec_parse_holds : forall m p, known_d32_parse p = false ->
   P_C06_parse m p (observe_parse m (rfc_alc_encode p)) = true.
 Proof. exact spec_parse_holds. Qed.
 Print Assumptions C06_spec_parse_holds.
@@ -209,6 +238,7 @@ Print Assumptions C06_spec_ntp_holds.
 (* (10) round trip: what the sender builds for an in-range input is parsed by the receiver side to
    the values of the RFC packet carrying the input's values *)
 Theorem C06_alc_pkt_roundtrip : forall m o cci tsi p prof now c s o' h v fs,
+  known_d32_build o p = false ->
   in_range o cci tsi p now v fs ->
   lct_flags cci tsi (k_toi p) = (c, s, o', h) ->
   exists bytes, new_alc_pkt o cci tsi p prof now = Ok bytes
@@ -272,4 +302,23 @@ Example C06_example_parse :
             /\ po_sct o = Ok (Some 2085978495999999) /\ po_pid o = Ok (16777215, 255, None)
   | _ => False
   end.
+Proof. vm_compute. repeat split; reflexivity. Qed.
+
+(* D32: on a concrete Raptor packet with in-band FTI the RFC predicates fail, in both directions *)
+Definition d32_oti : oti :=
+  {| o_fec := Raptor; o_inst := 0; o_B := 8; o_E := 16; o_parity := 0;
+     o_ss := Some (SSRaptor 2 1 4); o_inband_fti := true |}.
+Definition d32_pkt : pkt :=
+  {| k_payload := [170]; k_transfer_length := 1000; k_esi := 0; k_sbn := 0; k_toi := 1; k_fdt_id := None;
+     k_cenc := 0; k_inband_cenc := false; k_close_object := false; k_source_block_length := 0; k_sct := false |}.
+Definition d32_rfc_pkt : rfc_pkt :=
+  mk_rfc_pkt {| r_v := 1; r_c := 0; r_psi := 0; r_s := 0; r_o := 0; r_h := 1; r_res := 0; r_a := 0; r_b := 0;
+                r_hdr_len := 0; r_cp := 1; r_cci := 0; r_tsi := 1; r_toi := 1 |}
+             [x_fti (FtiRaptor 1000 0 16 2 1 4)] [(0, 16); (0, 16)] [].
+
+Example D32_witness :
+  known_d32_build d32_oti d32_pkt = true /\ build_in_range d32_oti 0 1 d32_pkt 0 = true
+  /\ P_C06_build d32_oti 0 1 d32_pkt RFC6726 0 (new_alc_pkt d32_oti 0 1 d32_pkt RFC6726 0) = false
+  /\ known_d32_parse d32_rfc_pkt = true /\ wf_pkt d32_rfc_pkt && parse_demand 8 d32_rfc_pkt = true
+  /\ P_C06_parse 8 d32_rfc_pkt (observe_parse 8 (rfc_alc_encode d32_rfc_pkt)) = false.
 Proof. vm_compute. repeat split; reflexivity. Qed.
